@@ -195,9 +195,41 @@ func runC06(c *eng.Ctx) {
 				}
 			}
 		}
-		c.Check(facts.Prove("le", qv, loaded, at), "loaded-ack>=queue-ack", qv, f,
+		// the queue's own invariant acknowledged <= appended (rules SetAcknowledgedSeq / SetAppendedSeq) may be assumed for the
+		// values read here: a position capped at AppendedSeq() is still >= the queue-wide ack
+		var inv []eng.Fact
+		for _, a := range p.Sites(f, func(p *eng.Prog, in ssa.Instruction) bool {
+			cl, ok := in.(*ssa.Call)
+			return ok && cl.Common().IsInvoke() && cl.Common().Method.Name() == "AppendedSeq"
+		}) {
+			inv = append(inv, eng.Fact{Op: "le", X: qv, Y: a.Instr.(ssa.Value)})
+		}
+		c.Check(facts.Prove("le", qv, loaded, at) || facts.ProveWith("le", qv, loaded, at, inv...), "loaded-ack>=queue-ack", qv, f,
 			"a group loaded from disk never starts below the queue-wide ack (messages at or below it may be collected)",
 			"cannot prove "+p.Desc(qv)+" <= "+p.Desc(loaded))
+		// F35: on the loaded path neither position exceeds the queue's appended sequence (the log may have been reset backwards
+		// while the group was stopped: fanOutQueue.SetAppendedSeq only reaches the groups that are in the map)
+		app := p.Sites(f, func(p *eng.Prog, in ssa.Instruction) bool {
+			cl, ok := in.(*ssa.Call)
+			return ok && cl.Common().IsInvoke() && cl.Common().Method.Name() == "AppendedSeq"
+		})
+		loadedC := consumed
+		if ph, ok := consumed.(*ssa.Phi); ok {
+			for _, e := range ph.Edges {
+				if _, isC := e.(*ssa.Const); !isC {
+					loadedC = e
+				}
+			}
+		}
+		okApp := false
+		for _, a := range app {
+			if facts.Prove("le", loadedC, a.Instr.(ssa.Value), at) {
+				okApp = true
+			}
+		}
+		c.Check(okApp, "loaded-consumed<=appended", at, f,
+			"a group loaded from disk never starts beyond the queue's appended sequence: its positions are capped at AppendedSeq() (a backward index reset while the group was stopped leaves larger positions on disk)",
+			fmt.Sprintf("cannot prove %s <= queue.AppendedSeq() (%d reads of the appended sequence)", p.Desc(loadedC), len(app)))
 		// both values persisted
 		for _, s := range c.Some(f, invokeOn("", "PutUint64"), "meta page writes") {
 			args := eng.CallArgs(s.Instr.(*ssa.Call))
